@@ -109,6 +109,11 @@ def all_cells():
                 yield {'place': place, 'phase': ph, 'child': child, 'history': hist}
     for child, hist in STDIN_SCHEDULES:
         yield {'place': 'stdin-stdout-from', 'phase': 'setup', 'child': child, 'history': hist}
+    # a step fails by timeout and [cleanup] then starts a process of its own that is too slow as well: the timeout
+    # last set is still in force there
+    for ph in ('setup', 'act', 'before-assert'):
+        for place in (('act-sys',) if ph == 'act' else ('instr-sys', 'instr-run-sym')):
+            yield {'place': place, 'phase': ph, 'child': 'long', 'history': 'h8_slow_cleanup_after_failure'}
     for place in sorted(PLACES):
         phases, _ = PLACES[place]
         for ph in phases:
@@ -163,6 +168,9 @@ def build(cell):
         use(['timeout = none'], [])
     elif hist == 'h6_default':
         use([], [])
+    elif hist == 'h8_slow_cleanup_after_failure':
+        use(['timeout = 1'], [])
+        p['cleanup'].append('% {PY} {PROBE} {OBS}/child2')
     elif hist == 'h7_zero':
         use(['timeout = 0'], [])
         p['cleanup'].insert(0, 'timeout = 30')  # the marker of [cleanup] is written by a process, too
@@ -216,6 +224,7 @@ def run_cell(cell, subproc=False):
             ws.write('probe_copy.py', f.read(), subst=False)
         ws.probe_cfg('child', sleep=CHILD_SLEEP[cell['child']], early=True, no_stdin=True,
                      ignore_sigterm=(cell['child'] == 'long_ignore_term'))
+        ws.probe_cfg('child2', sleep=40, early=True, no_stdin=True)
         t0 = time.time()
         if subproc:
             r = driver.run_subproc(ws, ['t.case'], timeout_s=100)
@@ -223,7 +232,8 @@ def run_cell(cell, subproc=False):
             r = driver.run_inproc(ws, ['t.case'], timeout_s=100)
         elapsed = time.time() - t0
         recs = ws.probe_records('child')
-        pids = [x['pid'] for x in recs]
+        recs2 = ws.probe_records('child2')
+        pids = [x['pid'] for x in recs + recs2]
         alive = [pid for pid in pids if _alive(pid)]
         time.sleep(0.05) if alive else None
         alive = [pid for pid in alive if _alive(pid)]
@@ -237,7 +247,8 @@ def run_cell(cell, subproc=False):
     ident = r.first_out_line
     m = re.search(r'^In \[([a-z-]+)\]', r.err, re.M)
     return {'text': text, 'ident': ident, 'exit': r.exit_code, 'phase': m.group(1) if m else None,
-            'elapsed': round(elapsed, 2), 'child_started': len(pids), 'alive': alive, 'markers': markers,
+            'elapsed': round(elapsed, 2), 'child_started': len(recs), 'cleanup_child_started': len(recs2),
+            'alive': alive, 'markers': markers,
             'sandboxes': sandboxes, 'err': r.err[:500], 'exception': r.exception, 'timed_out': r.timed_out}
 
 
@@ -261,7 +272,7 @@ def check(cell) -> Verdict:
     must_fire = cell['child'] in ('long', 'long_ignore_term', '61s-default')
     limit = 60 if cell['child'] == '61s-default' else (0 if cell['history'] == 'h7_zero' else 1)
     if must_fire:
-        if o['timed_out'] or o['elapsed'] >= (limit + 29 if limit == 1 else 74):
+        if o['timed_out'] or o['elapsed'] >= (limit + 29 if limit <= 2 else 74):
             return bad('waited-for-the-child')
         if o['ident'] != 'HARD_ERROR':
             if o['child_started'] == 0:
@@ -270,6 +281,11 @@ def check(cell) -> Verdict:
         exp_phases = {cell['phase']}
         if cell['place'] == 'stdin-stdout-from':
             exp_phases = {'setup', 'act'}
+        if cell['history'] == 'h8_slow_cleanup_after_failure':
+            exp_phases.add('cleanup')  # a failing cleanup step may be named instead
+            limit = 2  # two processes in a row, each stopped after 1 s
+            if o['cleanup_child_started'] != 1:
+                return bad('cleanup-did-not-start-its-process')
         if o['phase'] not in exp_phases:
             return bad('reported-in-wrong-phase')
         if o['alive']:
@@ -314,7 +330,7 @@ def enum_cells(tier):
                 # every act place x every context with the must-fire schedule, and a seeded 1/7 of the rest
                 if (c['phase'] == 'act' and c['history'] == 'h1_same_phase') or h == 0:
                     picked.append(c)
-            elif c['history'].startswith('hs') or (c['history'] == 'h7_zero' and (c['phase'] == 'act' or h < 2)):
+            elif c['history'].startswith('hs') or c['history'].startswith('h8') or (c['history'] == 'h7_zero' and (c['phase'] == 'act' or h < 2)):
                 picked.append(c)
             elif h < 3 or (c['history'] == 'h1_same_phase' and c['child'] == 'long'
                            and (c['phase'] in ('act', 'assert', 'setup') or h < 3)):
